@@ -252,7 +252,7 @@ def loop_sites(body):
             k3 = k2 + 5
             while k3 < n and body[k3] in ' \t\r\n': k3 += 1
             e2 = match_close(body, k3, '(', ')')
-            sites.append(('do', e2 + 1, m.start()))
+            sites.append(('do', m.end(), m.start()))   # CBMC: the contract of a do-while follows the `do` keyword
     sites.sort(key=lambda s: s[2])
     return sites
 
